@@ -177,7 +177,7 @@ def enum_text(e):
     return "enum %s%s { %s }" % ("class " if e["scoped"] else "", e["name"], body)
 
 
-def build_yaml(lib, enums):
+def build_yaml(lib, enums, options=None):
     top = []
     scopes = {}
     for e in enums:
@@ -191,7 +191,7 @@ def build_yaml(lib, enums):
                 scopes[path] = node["declarations"]
             cur = scopes[path]
         cur.append({"decl": enum_text(e) + ";"})
-    return yaml.safe_dump({"library": lib, "cxx_header": "enums.hpp", "options": {"wrap_python": False, "wrap_lua": False},
+    return yaml.safe_dump({"library": lib, "cxx_header": "enums.hpp", "options": dict({"wrap_python": False, "wrap_lua": False}, **(options or {})),
                            "declarations": top}, sort_keys=False, width=4000)
 
 
@@ -271,14 +271,15 @@ def run_printer(work, tag, compiler_cmd, src_name, lines_for_items, header_lines
 
 
 def _job(job):
-    idx, lib, enums = job
+    idx, lib, enums = job[:3]
+    options = job[3] if len(job) > 3 else None
     out = dict(idx=idx, problems=[], n=0, nontrivial=[], sample=None)
-    ytext = build_yaml(lib, enums)
+    ytext = build_yaml(lib, enums, options)
     work = tempfile.mkdtemp(prefix="vf11_", dir=core.scratch_root())
     try:
         r = shroud_run.run_yaml(ytext, [], workdir=work, name="enums")
         if r.status != "ok":
-            out["problems"].append(("shroud-stops", dict(lib=lib, enums=enums), "Shroud stops on an accepted-grammar enum: " + r.describe()))
+            out["problems"].append(("shroud-stops", dict(lib=lib, enums=enums, options=options), "Shroud stops on an accepted-grammar enum: " + r.describe()))
             return out
         outd = os.path.join(work, "out")
         with open(os.path.join(outd, "enums.hpp"), "w") as fp:
@@ -298,6 +299,17 @@ def _job(job):
             raise core.HarnessError("generator produced an enum g++ rejects: %r" % list(cxx_err.values())[:1])
         # generated C headers
         hdrs = sorted(f for f in os.listdir(outd) if f.startswith("wrap") and f.endswith(".h"))
+        # the generated headers by themselves must be valid C (an enumerator that refers to a constant
+        # which does not exist, or exists only later, is a defect of the header, not of one printed line)
+        with open(os.path.join(outd, "p_h.c"), "w") as fp:
+            fp.write("".join('#include "%s"\n' % h for h in hdrs) + "int main(void) { return 0; }\n")
+        cp = subprocess.run(["gcc", "-std=c99", "-w", "-I", outd, "-c", "p_h.c", "-o", "p_h.o"], cwd=outd,
+                            capture_output=True, text=True, timeout=300)
+        if cp.returncode != 0:
+            msg = " | ".join(l.strip() for l in cp.stderr.split("\n") if "rror" in l)[:400]
+            out["problems"].append(("c-header-does-not-compile", dict(lib=lib, enums=enums, options=options),
+                                    "the generated C header is not valid C: " + msg))
+            return out
         c_vals, c_err = run_printer(outd, "c", ["gcc", "-std=c99", "-w", "-I", outd], "p_c.c",
                                     lambda k: ['printf("V %d %%ld\\n", (long)%s);' % (k, info[k][2])],
                                     ['#include <stdio.h>'] + ['#include "%s"' % h for h in hdrs] + ["int main(void) {"],
@@ -316,7 +328,7 @@ def _job(job):
             if not rest:
                 break
             if len(rest) == len(pending):
-                out["problems"].append(("fortran-module-does-not-compile", dict(lib=lib, enums=enums),
+                out["problems"].append(("fortran-module-does-not-compile", dict(lib=lib, enums=enums, options=options),
                                         "generated module %s does not compile: %s" % (rest[0][0], rest[0][1][-600:])))
                 return out
             pending = [f for f, _e in rest]
@@ -336,7 +348,7 @@ def _job(job):
                 raise core.HarnessError("no C++ value for %s" % cxx)
             if want != m["value"]:
                 raise core.HarnessError("generator's value model disagrees with g++ for %s: %s vs %s" % (enum_text(e), m["value"], want))
-            case = dict(lib=lib, enums=[e])
+            case = dict(lib=lib, enums=[e], options=options)
             if k in c_err:
                 out["problems"].append(("c-enumerator-missing-or-invalid", case,
                                         "%s: C enumerator %s of generated header does not compile: %s" % (enum_text(e), cname, c_err[k])))
@@ -386,7 +398,10 @@ def run(ctx):
     def batch(draw):
         return [draw(enum(i)) for i in range(per)]
     batches = smallgen.sample(batch(), ctx.seed, nyaml)
-    jobs = [(i, "EnumLib", b) for i, b in enumerate(batches)]
+    # every third YAML sets the documented C_line_length / F_line_length options to small values: long
+    # enumerator lines are then the rule (the values must not depend on how a line is laid out)
+    LENGTHS = [None, None, {"C_line_length": 40}, None, None, {"C_line_length": 30, "F_line_length": 60}]
+    jobs = [(i, "EnumLib", b, LENGTHS[i % len(LENGTHS)]) for i, b in enumerate(batches)]
     for out in core.pool_map(_job, jobs):
         ctx.case(n=out["n"], label=out.get("feats") or ["failed"])
         for nt in out["nontrivial"]:
@@ -405,6 +420,6 @@ def run(ctx):
 
 def replay(ctx, rec):
     c = rec["case"]
-    out = _job((0, c["lib"], c["enums"]))
+    out = _job((0, c["lib"], c["enums"], c.get("options")))
     for key, case, note in out["problems"]:
         ctx.failure(("probe:" + c["probe"]) if c.get("probe") else key, c, observed=note, note=note)
